@@ -116,6 +116,11 @@ def oracle_solver_independence(R, tier, seed):
     # the wing box with distributed fuel and weight relief is in the quick tier too, and the histories change the load factor:
     # a seeded change that cached the fuel loads across analyses (keyed without the load factor) was missed without them
     cases = [("tube", surf_tube, dict(Mach=0.84, alpha=3.0)), ("wingbox-fuel", surf_wingbox, dict(WB_FLOW, load_factor=2.5))]
+    # engines as point masses: the histories move them spanwise between analyses (a seeded change that cached their nodal
+    # weighting on a view of the input vector - so that the first analysis' weighting was kept for ever - was missed without it)
+    ym = crm()[0, :, 1]
+    pm = dict(point_masses=[[8000.0]], point_mass_locations=[[25.0, 0.55 * ym[0] + 0.45 * ym[1], -0.5]], engine_thrusts=[[6e4]])
+    cases.append(("tube-point-mass", lambda: surf_tube(n_point_masses=1, struct_weight_relief=True), dict(Mach=0.84, alpha=3.0, load_factor=1.5, **pm)))
     for name, mk, flow in cases:
         ref = None
         for sname, sfn in (_solvers() if (name == "tube" or tier != "quick") else _solvers()[:1]):
@@ -133,16 +138,24 @@ def oracle_solver_independence(R, tier, seed):
             if bad: O["failures"].append({"key": "C12:%s:state-depends-on-solver(%s)" % (name, sname), "case": {"model": name, "solver": sname, **{k: (float(v) if np.isscalar(v) else v) for k, v in flow.items()}}, "errors": bad})
             else: O["ok"] += 1
         # initial guess / previously analysed design point
-        for hist in ([{"alpha": 6.0}], [{"alpha": -2.0, "Mach_number": 0.5}, {"alpha": 5.0}], [{"load_factor": 1.0}], [{"load_factor": 1.0, "alpha": 4.0}, {"load_factor": -1.0}]):
+        hists = [[{"alpha": 6.0}], [{"alpha": -2.0, "Mach_number": 0.5}, {"alpha": 5.0}], [{"load_factor": 1.0}], [{"load_factor": 1.0, "alpha": 4.0}, {"load_factor": -1.0}]]
+        if "point_masses" in flow:
+            loc = np.array(flow["point_mass_locations"], dtype=float)
+            inboard = loc.copy(); inboard[0, 1] = 0.3 * ym[-2] + 0.7 * ym[-1]
+            hists = [[{"point_mass_locations": inboard}], [{"point_mass_locations": inboard, "alpha": 5.0}, {"point_masses": np.array([[2000.0]])}]]
+        for hist in hists:
             O["cases"] += 1
             p = structs.build_aerostruct([mk()], **flow); tighten(p)
             for pt in hist:
                 for k, v in pt.items(): p.set_val(k, v)
                 _quiet(p.run_model)
-            p.set_val("alpha", flow["alpha"]); p.set_val("Mach_number", flow["Mach"]); p.set_val("load_factor", flow.get("load_factor", 1.0)); _quiet(p.run_model)
+            p.set_val("alpha", flow["alpha"]); p.set_val("Mach_number", flow["Mach"]); p.set_val("load_factor", flow.get("load_factor", 1.0))
+            for k in ("point_masses", "point_mass_locations"):
+                if k in flow: p.set_val(k, np.array(flow[k], dtype=float))
+            _quiet(p.run_model)
             ob = observe(p)
             bad = {k: rel(ob[k], ref[k]) for k in ob if rel(ob[k], ref[k]) > 2e-6}
-            if bad: O["failures"].append({"key": "C12:%s:state-depends-on-previous-design-point" % name, "case": {"model": name, "history": hist}, "errors": bad})
+            if bad: O["failures"].append({"key": "C12:%s:state-depends-on-previous-design-point" % name, "case": {"model": name, "history": core.jsonable(hist)}, "errors": bad})
             else: O["ok"] += 1
         R.mark("c12b", name)
 
